@@ -7,3 +7,11 @@ from vt.props._units import run_units
 def run(ctx, proofs_ok):
     run_env_property(ctx, proofs_ok, "C06")
     run_units(ctx, proofs_ok)
+
+
+def replay(obj):
+    if obj.get("unit") == "improve":
+        from vt.props import c06_improve
+        return c06_improve.replay(obj)
+    import json
+    print(json.dumps(obj, indent=1)[:4000])
